@@ -575,32 +575,123 @@ theorem affine_isNearest (X : Int) : IsNearest (roundHalfUp X 65536) (X * 65536)
 theorem negS32_exact (x : Int) (h : -2147483648 < x ∧ x ≤ 2147483647) : negS32 x = -x := by
   unfold negS32 wrapS32; omega
 
-/-- error analysis of the precision-reduced division: a nearest rounding `q` of
-    `⌊N/2^s⌋ / ⌊W/2^s⌋` with `|⌊W/2^s⌋| ≥ 2^47` and `|q| ≤ 2^31` is within one unit of `N / W` -/
-theorem within_one_of_reduced (N W q : Int) (s : Nat) (s1 : 1 ≤ s) (s2 : s ≤ 31)
-    (hq : IsNearest q (N / (2 : Int) ^ s) (W / (2 : Int) ^ s))
-    (hD : 140737488355328 ≤ abs (W / (2 : Int) ^ s)) (hr : -2147483649 ≤ q ∧ q ≤ 2147483648) :
-    IsWithinOne q N W := by
-  unfold IsNearest at hq
-  unfold IsWithinOne
-  have hp : (0 : Int) < 2 ^ s := Int.pow_pos (by omega)
-  have hW : W = W / 2 ^ s * 2 ^ s + W % 2 ^ s := by
-    have := Int.mul_ediv_add_emod W (2 ^ s); rw [Int.mul_comm] at this; omega
-  have w1 := Int.emod_nonneg W (by omega : (2 : Int) ^ s ≠ 0)
-  have w2 := Int.emod_lt_of_pos W hp
-  have e : q * W = q * (W / 2 ^ s) * 2 ^ s + q * (W % 2 ^ s) := by
-    have := congrArg (fun z => q * z) hW
-    simp only [Int.mul_add, Int.mul_assoc] at this ⊢; exact this
-  have mb := mul_bounds q (W % 2 ^ s) 2147483649 (2 ^ s) (by omega) (by omega)
-  generalize q * (W / 2 ^ s) = t at *
-  generalize q * (W % 2 ^ s) = u at *
-  generalize q * W = qW at *
-  clear hW
-  unfold abs at *
-  have cases : s = 1 ∨ s = 2 ∨ s = 3 ∨ s = 4 ∨ s = 5 ∨ s = 6 ∨ s = 7 ∨ s = 8 ∨ s = 9 ∨ s = 10 ∨ s = 11 ∨ s = 12 ∨ s = 13 ∨ s = 14 ∨ s = 15 ∨ s = 16 ∨ s = 17 ∨ s = 18 ∨ s = 19 ∨ s = 20 ∨ s = 21 ∨ s = 22 ∨ s = 23 ∨ s = 24 ∨ s = 25 ∨ s = 26 ∨ s = 27 ∨ s = 28 ∨ s = 29 ∨ s = 30 ∨ s = 31 := by omega
-  rcases cases with h|h|h|h|h|h|h|h|h|h|h|h|h|h|h|h|h|h|h|h|h|h|h|h|h|h|h|h|h|h|h <;> subst h <;> simp only [Int.reducePow] at * <;>
-    (split at hq <;> split at hq <;> split at hD <;> split <;> split <;> omega)
+theorem abs_eq_natAbs (x : Int) : abs x = x.natAbs := by unfold abs; omega
+theorem abs_mul (a b : Int) : abs (a * b) = abs a * abs b := by
+  rw [abs_eq_natAbs, abs_eq_natAbs, abs_eq_natAbs, Int.natAbs_mul]; simp
+theorem abs_nonneg (x : Int) : 0 ≤ abs x := by unfold abs; split <;> omega
 
+/-- sharp error analysis of the precision-reduced division (no hypothesis on the size of `q`): a nearest
+    rounding `q` of `⌊N/2^s⌋ / ⌊W/2^s⌋` with `s ≥ 1`, `|⌊W/2^s⌋| ≥ 2^47` and `|N| ≤ 3·2^78` (every
+    numerator reachable from the 32-bit API) is within `1/2 + 2/65536` unit of `N / W`, and `|q| ≤ 3·2^30+1`. -/
+theorem reduced_error (N W q : Int) (s : Nat) (s1 : 1 ≤ s)
+    (hq : IsNearest q (N / (2 : Int) ^ s) (W / (2 : Int) ^ s))
+    (hD : 140737488355328 ≤ abs (W / (2 : Int) ^ s))
+    (hN : -906694364710971881029632 ≤ N ∧ N ≤ 906694364710971881029632) :
+    IsWithinHalfPlus q N W ∧ abs q ≤ 3221225473 := by
+  unfold IsNearest at hq
+  unfold IsWithinHalfPlus
+  have hp : (0 : Int) < 2 ^ s := Int.pow_pos (by omega)
+  have hp2 : (2 : Int) ≤ 2 ^ s := by
+    obtain ⟨k, rfl⟩ : ∃ k, s = k + 1 := ⟨s - 1, by omega⟩
+    have : (0 : Int) < 2 ^ k := Int.pow_pos (by omega)
+    rw [Int.pow_succ]; omega
+  generalize (2 : Int) ^ s = P at *
+  have hW : W = W / P * P + W % P := by
+    have := Int.mul_ediv_add_emod W P; rw [Int.mul_comm] at this; omega
+  have hN' : N = N / P * P + N % P := by
+    have := Int.mul_ediv_add_emod N P; rw [Int.mul_comm] at this; omega
+  have w1 := Int.emod_nonneg W (by omega : P ≠ 0)
+  have w2 := Int.emod_lt_of_pos W hp
+  have n1 := Int.emod_nonneg N (by omega : P ≠ 0)
+  have n2 := Int.emod_lt_of_pos N hp
+  -- |N / P| ≤ 3·2^77
+  have nb1 : -453347182355485940514816 ≤ N / P := by
+    apply Int.le_ediv_of_mul_le hp; omega
+  have nb2 : N / P ≤ 453347182355485940514816 := by
+    apply Int.ediv_le_of_le_mul hp; omega
+  generalize W / P = D at *
+  generalize W % P = rw at *
+  generalize N / P = N' at *
+  generalize N % P = rn at *
+  -- bound on q:  (2|q| − 1)·2^47 ≤ (2|q| − 1)·|D| = 2|qD| − |D| ≤ 2|N'|
+  have hqb : abs q ≤ 3221225473 := by
+    by_cases hq0 : q = 0
+    · subst hq0; unfold abs; simp
+    · have q1 : 0 ≤ 2 * abs q - 1 := by unfold abs; split <;> omega
+      have key := Int.mul_le_mul_of_nonneg_left hD q1
+      have e : (2 * abs q - 1) * abs D = 2 * abs (q * D) - abs D := by
+        rw [abs_mul, Int.sub_mul, Int.mul_assoc, Int.one_mul]
+      rw [e] at key
+      generalize q * D = t at *
+      generalize abs q = aq at *
+      unfold abs at hq key
+      split at hq <;> split at key <;> split at key <;> omega
+  refine ⟨?_, hqb⟩
+  -- N − qW = (N' − qD)·P + rn − q·rw, every product an atom
+  have eA : N - q * W = (N' - q * D) * P + rn - q * rw := by
+    rw [hN', hW, Int.mul_add, Int.sub_mul, Int.mul_assoc]; omega
+  have hPa : abs P = P := by unfold abs; split <;> omega
+  have hA : 2 * abs ((N' - q * D) * P) ≤ abs (D * P) := by
+    rw [abs_mul, abs_mul, hPa, ← Int.mul_assoc]
+    exact Int.mul_le_mul_of_nonneg_right hq (by omega)
+  have hDP : 140737488355328 * P ≤ abs (D * P) := by
+    rw [abs_mul, hPa]
+    exact Int.mul_le_mul_of_nonneg_right hD (by omega)
+  have hu := mul_bounds q rw 3221225473 P (by unfold abs at hqb; split at hqb <;> omega) (by omega)
+  rw [eA, hW]
+  generalize (N' - q * D) * P = A at *
+  generalize D * P = DP at *
+  generalize q * rw = u at *
+  clear hW hN' eA hPa
+  unfold abs at *
+  split at hA <;> split at hA <;> split at hDP <;> split <;> split <;> omega
+
+theorem halfPlus_within_one (q n d : Int) (h : IsWithinHalfPlus q n d) : IsWithinOne q n d := by
+  unfold IsWithinHalfPlus at h; unfold IsWithinOne
+  have := abs_nonneg d
+  omega
+
+/-- a value within `1/2 + 2/65536` of `n/d` that is not an `int32_t`: the exact quotient `n/d` itself lies
+    outside `[INT32_MIN, INT32_MAX]` -/
+theorem quot_out_of_range (q n d : Int) (hd : d ≠ 0) (h : IsWithinHalfPlus q n d) (hq : ¬ Rep32 q) :
+    ¬ QuotInRange n d (-2147483648) 2147483647 := by
+  unfold IsWithinHalfPlus at h
+  unfold Rep32 at hq
+  unfold QuotInRange
+  by_cases hpos : 0 < d
+  · simp only [hpos, if_true]
+    by_cases hbig : 2147483648 ≤ q
+    · have m := Int.mul_le_mul_of_nonneg_right hbig (Int.le_of_lt hpos)
+      generalize q * d = t at *
+      unfold abs at h; split at h <;> split at h <;> omega
+    · have m := Int.mul_le_mul_of_nonneg_right (by omega : q ≤ -2147483649) (Int.le_of_lt hpos)
+      generalize q * d = t at *
+      unfold abs at h; split at h <;> split at h <;> omega
+  · simp only [hpos, if_false]
+    have hneg : 0 ≤ -d := by omega
+    by_cases hbig : 2147483648 ≤ q
+    · have m := Int.mul_le_mul_of_nonneg_right hbig hneg
+      simp only [Int.mul_neg] at m
+      generalize q * d = t at *
+      unfold abs at h; split at h <;> split at h <;> omega
+    · have m := Int.mul_le_mul_of_nonneg_right (by omega : q ≤ -2147483649) hneg
+      simp only [Int.mul_neg] at m
+      generalize q * d = t at *
+      unfold abs at h; split at h <;> split at h <;> omega
+
+/-- the exact row product of `int32_t` matrix entries and `int32_t` vector components: `|a·x+b·y+c·z| ≤ 3·2^62` -/
+theorem dot_bound (a b c : Int) (v : Vec) (ha : isI32 a) (hb : isI32 b) (hc : isI32 c) (hv : v.isI32) :
+    -13835058055282163712 ≤ dot a b c v.x v.y v.z ∧ dot a b c v.x v.y v.z ≤ 13835058055282163712 := by
+  unfold isI32 at ha hb hc
+  unfold Vec.isI32 isI32 at hv
+  unfold dot
+  have x1 := mul_bounds a v.x 2147483648 2147483648 (by omega) (by omega)
+  have x2 := mul_bounds b v.y 2147483648 2147483648 (by omega) (by omega)
+  have x3 := mul_bounds c v.z 2147483648 2147483648 (by omega) (by omega)
+  generalize a * v.x = p1 at *
+  generalize b * v.y = p2 at *
+  generalize c * v.z = p3 at *
+  omega
 
 /-- `fixed_64_16_to_int128 (hi, lo, .., 32 - s)`: the 128-bit pair is `⌊(64.16 value) · 2^16 / 2^s⌋` -/
 theorem to128_reduced (h l : Int) (s : Nat) (s1 : 1 ≤ s) (s2 : s ≤ 31) (hr : isI64 (h + l / 65536)) :
